@@ -168,3 +168,46 @@ for T, (x, lit) in LIT.items():
         ('fired.binding', '(S0.name.len() >= 1 && S0.%s.len() >= 1) ==> S1.bindings == S0.bindings.insert(top(S0.name, 0), %s)' % (x, v)),
         ('{C07,C10}unfired.binding', '!(S0.name.len() >= 1 && S0.%s.len() >= 1) ==> S1.bindings == S0.bindings' % x)])
 row('NAME.QUOTE', ['C07'], touches=['quote'], clauses=[('fired.flag', 'S1.quote == true')])
+
+# ------------------------------------------------------------------ C17: INPUT / OUTPUT over the ring buffers
+def buf_same(b):
+    return [('frame.%s.kind' % b, 'S1.%s.cap() == S0.%s.cap() && S1.%s.is_queue() == S0.%s.is_queue()' % (b, b, b, b))]
+
+row('INPUT.AVAILABLE', ['C17'], pushes=[('bool', 'S0.input.n() > 0')])
+row('INPUT.STACKDEPTH', ['C17'], pushes=[('int', 'S0.input.n() as i32')])
+row('OUTPUT.STACKDEPTH', ['C17'], pushes=[('int', 'S0.output.n() as i32')])
+# nth bit of the oldest message, the index clamped into the body
+_body = 'S0.input.live()[0].body.values@'
+row('INPUT.GET', ['C17'], takes=[('int', 1)], guard='S0.input.n() > 0 && %s.len() > 0' % _body,
+    pushes=[('bool', '%s[clamp_idx(top(S0.int, 0) as int, %s.len() as int)]' % (_body, _body))])
+row('INPUT.NEXT', ['C17'], touches=['input'], clauses=buf_same('input') + [
+    ('fired.input', 'S0.input.n() > 0 ==> S1.input.live() =~= S0.input.live().subrange(1, S0.input.n())'),
+    ('{C17,C10}unfired.input', 'S0.input.n() == 0 ==> S1.input.live() =~= S0.input.live()')])
+row('INPUT.READ', ['C17'], fired='(S0.input.n() > 0)',
+    pushes=[('boolvec', 'S0.input.live()[0].body'), ('intvec', 'S0.input.live()[0].header')])
+row('OUTPUT.FLUSH', ['C17'], touches=['output'], clauses=buf_same('output') + [('fired.output', 'S1.output.live() =~= Seq::empty()')])
+row('OUTPUT.WRITE', ['C17'], takes=[('boolvec', 1), ('intvec', 1)], touches=['output'], clauses=buf_same('output') + [
+    ('fired.output', '(S0.boolvec.len() >= 1 && S0.intvec.len() >= 1 && S0.output.n() < S0.output.cap()) ==> S1.output.live() =~= '
+     'S0.output.live().push(crate::push::io::PushMessage { header: top(S0.intvec, 0), body: top(S0.boolvec, 0) })'),
+    ('fired.output.full', '(S0.boolvec.len() >= 1 && S0.intvec.len() >= 1 && S0.output.n() == S0.output.cap()) ==> S1.output.live() =~= S0.output.live()'),
+    ('{C17,C10}unfired.output', '!(S0.boolvec.len() >= 1 && S0.intvec.len() >= 1) ==> S1.output.live() =~= S0.output.live()')])
+
+# ------------------------------------------------------------------ C06: INDEX stack
+_ix = 'top(S0.index, 0)'
+row('INDEX.CURRENT', ['C06'], fired='(S0.index.len() >= 1)', pushes=[('int', '%s.current as i32' % _ix)])
+# "Pushes the destination field of the top INDEX to the INTEGER stack"
+row('INDEX.DESTINATION', ['C06'], fired='(S0.index.len() >= 1)', pushes=[('int', '%s.destination as i32' % _ix)])
+row('INDEX.DEFINE', ['C06'], takes=[('int', 1)],
+    pushes=[('index', 'crate::push::index::Index { current: 0, destination: (if top(S0.int, 0) < 0 { 0usize } else { top(S0.int, 0) as usize }) }')])
+row('INDEX.FLUSH', ['C06'], touches=['index'], clauses=[exact('index', 'Seq::empty()', None, 'fired')])
+row('INDEX.POP', ['C06'], touches=['index'], clauses=[
+    exact('index', 'S0.index.drop_last()', 'S0.index.len() >= 1', 'fired'), exact('index', 'S0.index', 'S0.index.len() == 0', '{C06,C10}unfired')])
+row('INDEX.INCREASE', ['C06'], touches=['index'], clauses=[
+    exact('index', 'S0.index.drop_last().push(crate::push::index::Index { current: (%s.current + 1) as usize, destination: %s.destination })' % (_ix, _ix),
+          'S0.index.len() >= 1 && %s.current < %s.destination' % (_ix, _ix), 'fired'),
+    exact('index', 'S0.index', '!(S0.index.len() >= 1 && %s.current < %s.destination)' % (_ix, _ix), '{C06,C10}unfired')])
+
+# ------------------------------------------------------------------ misc: NOOP, flags
+row('NOOP', ['C10'])
+row('CODE.NOOP', ['C10'])
+row('NAME.SEND', ['C10'], touches=['send'], clauses=[('fired.flag', 'S1.send == true')])
